@@ -60,6 +60,34 @@ def replay_file(pid: str, harness: str, args: Dict[str, Any], detail: str) -> st
     return path
 
 
+def replay_sequence(pid: str, harness: str, seq, detail: str):
+    """Try a history of cases in ONE fresh interpreter; returns (path, detail) of the shortest failing
+    prefix if it fails reproducibly, else None."""
+    os.makedirs(REPLAYS, exist_ok=True)
+    blob = json.dumps({"property": pid, "harness": harness, "sequence": seq, "detail": detail}, sort_keys=True, default=repr)
+    path = os.path.join(REPLAYS, f"{pid}-seq-{hashlib.sha1(blob.encode()).hexdigest()[:10]}.json")
+    open(path, "w").write(blob)
+    env = dict(os.environ)
+    env["PYTHONPATH"] = VERIF
+    p = subprocess.run([PLAIN_PY, "-m", "engine.replay", path], cwd=VERIF, env=env, capture_output=True, text=True, timeout=600)
+    last = [ln for ln in p.stdout.splitlines() if ln.startswith("REPLAY ")]
+    os.unlink(path)
+    if not last:
+        return None
+    rec = json.loads(last[-1][len("REPLAY "):])
+    if rec["verdict"] != "FAIL" or rec.get("index") is None:
+        return None
+    prefix = seq[: rec["index"] + 1]
+    blob = json.dumps({"property": pid, "harness": harness, "sequence": prefix, "detail": rec["detail"]}, sort_keys=True, default=repr)
+    path = os.path.join(REPLAYS, f"{pid}-seq-{hashlib.sha1(blob.encode()).hexdigest()[:10]}.json")
+    open(path, "w").write(blob)
+    verdict, detail2 = replay_concrete(path)
+    if verdict == "FAIL":
+        return path, detail2
+    os.unlink(path)
+    return None
+
+
 def replay_concrete(path: str, timeout: float = 300.0):
     """Re-execute a counterexample in a plain interpreter (no engine). Returns (verdict, detail)."""
     env = dict(os.environ)
@@ -131,16 +159,43 @@ def run_check(pid: str, tier: str, jobs: List[Job], functions: List[str], assump
         if r["errors"]:
             inconclusive.append(f"{hname}: {r['errors'][0]}")
         confirmed = []
-        for f in r["fails"][:5]:
-            args = chx.jsonable(f["args"])
-            path = replay_file(pid, hname, args, f["detail"])
-            verdict, detail = replay_concrete(path)
-            totals["replayed"] += 1
-            if verdict == "FAIL":
-                confirmed.append((path, detail))
-            else:
+
+        def triage(fails, limit):
+            seen = set()
+            for f in fails:
+                key = (f["detail"] or "")[:80]
+                if key in seen or len(seen) >= limit:
+                    continue
+                seen.add(key)
+                args = chx.jsonable(f["args"])
+                path = replay_file(pid, hname, args, f["detail"])
+                verdict, detail = replay_concrete(path)
+                totals["replayed"] += 1
+                if verdict == "FAIL":
+                    confirmed.append((path, detail))
+                    return
                 artefacts.append({"harness": hname, "args": args, "engine_detail": f["detail"], "replay": [verdict, detail]})
                 os.unlink(path)
+
+        triage(r["fails"], 5)
+        if r["fails"] and not confirmed:
+            # The engine's counterexample does not fail in a fresh interpreter (engine artefact, or a
+            # failure that depends on what ran earlier in the engine process).  Do not stop there:
+            # explore again without stopping at the first FAIL and triage every distinct failure.
+            r2 = chx.explore(job.module, job.name, job.shards, job.budget, job.per_path_timeout, max_samples=job.max_samples, stop_on_fail=False)
+            for k in ("paths", "PASS", "SKIP", "TRUNC", "unknown", "decisions", "solver_queries"):
+                totals[k] += r2[k]
+            totals["solver_seconds"] += r2["solver_seconds"]
+            r["samples"] = r["samples"] or r2["samples"]
+            triage(r2["fails"], 12)
+            if not confirmed:
+                # still nothing fails on its own: the failure may depend on what the real code remembers
+                # from earlier calls (module-level state).  Replay the failing cases as ONE history.
+                seq = [chx.jsonable(f["args"]) for f in r2["fails"][:60]]
+                got = replay_sequence(pid, hname, seq, "history of cases executed in one process")
+                totals["replayed"] += 1
+                if got:
+                    confirmed.append(got)
         for path, detail in confirmed[:1]:
             violations.append(path)
             print(f"VIOLATION property={pid} replay={path}", flush=True)
